@@ -506,7 +506,7 @@ func (c14Driver) Run(spec *simrt.Spec, agg *Agg, keep bool) *Outcome {
 		}()
 		f()
 	}
-	nBuilt, nErr, nCorruptErr, nCorruptOK, nProbes := 0, 0, 0, 0, 0
+	nBuilt, nErr, nCorruptErr, nCorruptOK, nProbes, nConcBad := 0, 0, 0, 0, 0, 0
 	nRegroup := 0
 	res := w.Run(func() {
 		type ref struct {
@@ -779,6 +779,43 @@ func (c14Driver) Run(spec *simrt.Spec, agg *Agg, keep bool) *Outcome {
 				fail("returned-bytes-changed", "returned-bytes-changed", "the bytes returned to %s changed afterwards: %s -> %s", h.who, clip(h.snap), clip(string(h.b)))
 			}
 		}
+		// damaged: the document of a mask after the storage / transport damage cx (nil: not applicable)
+		damaged := func(cx C14Corrupt, rf *ref) []byte {
+			r := simrt.NewRand(cx.Seed)
+			doc := append([]byte(nil), rf.json...)
+			if len(doc) == 0 {
+				return nil
+			}
+			switch cx.Kind {
+			case "truncate":
+				doc = doc[:cx.At%len(doc)]
+			case "flip":
+				for k := 0; k < 1+r.Intn(3); k++ {
+					doc[r.Intn(len(doc))] ^= 1 << uint(r.Intn(8))
+				}
+			case "delete":
+				at := cx.At % len(doc)
+				n := 1 + r.Intn(8)
+				if at+n > len(doc) {
+					n = len(doc) - at
+				}
+				doc = append(doc[:at], doc[at+n:]...)
+			case "number":
+				// a numeric path / key replaced by another number (negative, large, fractional)
+				idx := c14NumRe.FindAllIndex(doc, -1)
+				if len(idx) == 0 {
+					return nil
+				}
+				at := idx[r.Intn(len(idx))]
+				repl := []string{"-1", "-64", "64", "65536", "2147483648", "99999999999", "1.5", "-0", "1e3"}[r.Intn(9)]
+				doc = append(append(append([]byte(nil), doc[:at[0]]...), []byte("\"path\":"+repl)...), doc[at[1]:]...)
+			case "insert":
+				at := cx.At % (len(doc) + 1)
+				junk := []string{"{", "}", "[", "]", ",", ":", "\"", "null", "\"type\":\"Nope\"", "\"path\":-5", "\"children\":[{}]", "1e99", "\"is_black\":1"}[r.Intn(13)]
+				doc = append(append(append([]byte(nil), doc[:at]...), junk...), doc[at:]...)
+			}
+			return doc
+		}
 		// (iv) corrupted documents and path strings
 		for _, cx := range work.Corrupt {
 			if cx.Mask < 0 || cx.Mask >= len(refs) || refs[cx.Mask] == nil {
@@ -823,37 +860,9 @@ func (c14Driver) Run(spec *simrt.Spec, agg *Agg, keep bool) *Outcome {
 				})
 				continue
 			}
-			doc := append([]byte(nil), rf.json...)
-			if len(doc) == 0 {
+			doc := damaged(cx, rf)
+			if doc == nil {
 				continue
-			}
-			switch cx.Kind {
-			case "truncate":
-				doc = doc[:cx.At%len(doc)]
-			case "flip":
-				for k := 0; k < 1+r.Intn(3); k++ {
-					doc[r.Intn(len(doc))] ^= 1 << uint(r.Intn(8))
-				}
-			case "delete":
-				at := cx.At % len(doc)
-				n := 1 + r.Intn(8)
-				if at+n > len(doc) {
-					n = len(doc) - at
-				}
-				doc = append(doc[:at], doc[at+n:]...)
-			case "number":
-				// a numeric path / key replaced by another number (negative, large, fractional)
-				idx := c14NumRe.FindAllIndex(doc, -1)
-				if len(idx) == 0 {
-					continue
-				}
-				at := idx[r.Intn(len(idx))]
-				repl := []string{"-1", "-64", "64", "65536", "2147483648", "99999999999", "1.5", "-0", "1e3"}[r.Intn(9)]
-				doc = append(append(append([]byte(nil), doc[:at[0]]...), []byte("\"path\":"+repl)...), doc[at[1]:]...)
-			case "insert":
-				at := cx.At % (len(doc) + 1)
-				junk := []string{"{", "}", "[", "]", ",", ":", "\"", "null", "\"type\":\"Nope\"", "\"path\":-5", "\"children\":[{}]", "1e99", "\"is_black\":1"}[r.Intn(13)]
-				doc = append(append(append([]byte(nil), doc[:at]...), junk...), doc[at:]...)
 			}
 			guard("UnmarshalJSON(damaged document "+clip(string(doc))+")", func() {
 				fm := new(fieldmask.FieldMask)
@@ -882,6 +891,62 @@ func (c14Driver) Run(spec *simrt.Spec, agg *Agg, keep bool) *Outcome {
 				}
 			})
 		}
+		// (iv-b) the same damaged document handed to Unmarshal by several callers at the same time: every one of
+		// them gets the outcome a cache-free decode gives (rejected for all, or masks that answer alike)
+		for ci, cx := range work.Corrupt {
+			if cx.Kind == "path" || cx.Mask < 0 || cx.Mask >= len(refs) || refs[cx.Mask] == nil {
+				continue
+			}
+			doc := damaged(cx, refs[cx.Mask])
+			if doc == nil {
+				continue
+			}
+			doc = append(doc, '\t', '\n') // a text no earlier phase has shown to the caches
+			refErr, refAns, refPanic := false, "", false
+			func() {
+				defer func() {
+					if recover() != nil {
+						refPanic = true
+					}
+				}()
+				fm := new(fieldmask.FieldMask)
+				if err := fm.UnmarshalJSON(append([]byte(nil), doc...)); err != nil {
+					refErr = true
+				} else {
+					refAns = c14Ans(fm)
+				}
+			}()
+			if refPanic {
+				continue // reported by phase (iv)
+			}
+			var wg2 sync.WaitGroup
+			n := 2 + int(cx.Seed%3)
+			for k := 0; k < n; k++ {
+				k := k
+				simrt.WGAdd(&wg2, 1)
+				simrt.Go("c14-bad-doc-caller", func() {
+					defer simrt.WGDone(&wg2)
+					guard("concurrent Unmarshal(damaged document)", func() {
+						who := fmt.Sprintf("caller %d of %d decoding damaged document %d at the same time", k, n, ci)
+						fm, err := fieldmask.Unmarshal(append([]byte(nil), doc...))
+						switch {
+						case refErr && err == nil:
+							fail("concurrent-unmarshal-differs", "concurrent-unmarshal-differs:error-lost", "%s: a cache-free decode rejects %s, this caller got no error (mask nil: %v)", who, clip(string(doc)), fm == nil)
+						case !refErr && err != nil:
+							fail("concurrent-unmarshal-differs", "concurrent-unmarshal-differs:spurious-error", "%s: a cache-free decode accepts %s, this caller got %v", who, clip(string(doc)), err)
+						case !refErr && fm == nil:
+							fail("concurrent-unmarshal-differs", "concurrent-unmarshal-differs:nil-mask", "%s: no error and no mask for %s", who, clip(string(doc)))
+						case !refErr:
+							if a := c14Ans(fm); a != refAns {
+								fail("concurrent-unmarshal-differs", "concurrent-unmarshal-differs:mask", "%s: the mask answers differently from a cache-free decode of the same text: %s", who, firstDiff(refAns, a))
+							}
+						}
+					})
+				})
+			}
+			simrt.WGWait(&wg2)
+			nConcBad++
+		}
 	})
 	agg.merge(res)
 	o.LogHash, o.SchedFP, o.Branching = res.LogHash, res.SchedFP, res.Branching
@@ -900,6 +965,7 @@ func (c14Driver) Run(spec *simrt.Spec, agg *Agg, keep bool) *Outcome {
 	agg.Count("probe.path-membership-queries", nProbes)
 	agg.Count("probe.regrouped-path-lists", nRegroup)
 	agg.Count("masks.rejected-paths", nErr)
+	agg.Count("fault.corrupt.decoded-by-concurrent-callers", nConcBad)
 	agg.Count("fault.corrupt.rejected", nCorruptErr)
 	agg.Count("fault.corrupt.accepted", nCorruptOK)
 	for _, cx := range work.Corrupt {
